@@ -1,6 +1,7 @@
 package main
 
 import (
+	"time"
 	"bytes"
 	"encoding/json"
 	"fmt"
@@ -126,6 +127,11 @@ func goLiteral(t Term, model map[string]string) (string, bool) {
 }
 
 func (r *Run) tryReplay(o *Obligation, rf *ReplayFile) {
+	if o.Class == "bounded" {
+		// the stand-in's own run is the replay: its source and output were recorded when it ran
+		rf.PkgDir, rf.TestSource, rf.TestOutput, rf.Reproduced = o.Pos, o.Goal, o.Output, true
+		return
+	}
 	if o.fc == nil {
 		r.tryTableReplay(o, rf)
 		return
@@ -208,7 +214,7 @@ func runReplayTest(repo, pkgDir, src string) (string, bool) {
 	ob, _ := json.Marshal(ov)
 	ovPath := filepath.Join(scratch, "overlay.json")
 	os.WriteFile(ovPath, ob, 0o644)
-	cmd := exec.Command("bash", "-c", fmt.Sprintf("ulimit -v 8000000; cd %q && go test -overlay %q -vet=off -count=1 -timeout 60s -run 'TestGovcReplay' ./%s/ 2>&1", repo, ovPath, pkgDir))
+	cmd := exec.Command("bash", "-c", fmt.Sprintf("ulimit -v 8000000; cd %q && go test -overlay %q -vet=off -count=1 -v -timeout 120s -run 'TestGovcReplay' ./%s/ 2>&1", repo, ovPath, pkgDir))
 	cmd.Env = goEnv()
 	b, _ := cmd.CombinedOutput()
 	out := string(b)
@@ -285,4 +291,43 @@ func (r *Run) tryTableReplay(o *Obligation, rf *ReplayFile) {
 	if !failed {
 		rf.Note = "replay test did not fail on the real code"
 	}
+}
+
+// boundedGoTest runs a bounded stand-in: an in-package Go test (template under replay_templates/bounded.<name>.tmpl,
+// injected by overlay) that enumerates a stated finite set of inputs of a function the contracts cannot reach. Its
+// last "BOUNDED" line reports how many cases it ran. The result is kept apart from the obligations discharged.
+func (r *Run) boundedGoTest(name, what, bound string) {
+	tb, err := os.ReadFile(filepath.Join(r.Out, "replay_templates", "bounded."+name+".tmpl"))
+	o := &Obligation{Name: "bounded/" + name, Class: "bounded", Func: "bounded", Text: what + " [bound: " + bound + "]", Backend: "go test"}
+	if err != nil {
+		o.Answer, o.Output = "error", err.Error()
+		r.Extra = append(r.Extra, o)
+		return
+	}
+	pkgDir := ""
+	for _, line := range strings.Split(string(tb), "\n") {
+		if strings.HasPrefix(line, "//govc:pkgdir ") {
+			pkgDir = strings.TrimSpace(strings.TrimPrefix(line, "//govc:pkgdir "))
+		}
+	}
+	start := time.Now()
+	out, failed := runReplayTest(r.Repo, pkgDir, string(tb))
+	o.Ms = time.Since(start).Milliseconds()
+	o.Pos, o.Goal, o.Output = pkgDir, string(tb), out
+	cases := ""
+	for _, line := range strings.Split(out, "\n") {
+		if i := strings.Index(line, "BOUNDED "); i >= 0 {
+			cases = strings.TrimSpace(line[i+8:])
+		}
+	}
+	switch {
+	case failed:
+		o.Answer = "sat"
+	case cases == "" || !strings.Contains(out, "ok "):
+		o.Answer = "error" // the stand-in did not run to completion: nothing can be said
+	default:
+		o.Answer = "unsat"
+	}
+	r.Bounded = append(r.Bounded, map[string]any{"name": name, "what": what, "bound": bound, "result": cases, "passed": o.Answer == "unsat", "wall_ms": o.Ms, "label": "bounded: an enumeration of the stated finite set, not a proof; not counted in discharged"})
+	r.Extra = append(r.Extra, o)
 }
